@@ -226,7 +226,7 @@ def _run_shard(args: tuple) -> dict:
             res['samples'].append(case)
         for sig, detail in out.violations:
             res['viol_count'][sig] += 1
-            if res['viol_count'][sig] <= 2 and len(res['violations']) < MAX_VIOL_PER_SHARD:
+            if res['viol_count'][sig] <= 6 and len(res['violations']) < MAX_VIOL_PER_SHARD:
                 res['violations'].append({'sig': sig, 'detail': detail, 'case': case})
         if out.digest and len(res['digests']) < 4:
             res['digests'].append({'case': case, 'digest': out.digest, 'cls': out.cls})
@@ -391,7 +391,7 @@ def run_check(prop: str, tier: str) -> int:
                     total['outcomes'][oc['cls']] += 1
                     for sig, detail in oc['violations']:
                         total['viol_count'][sig] += 1
-                        if total['viol_count'][sig] <= 2:
+                        if total['viol_count'][sig] <= 2 or (total['viol_count'][sig] <= 4000 and total['viol_count'][sig] % 40 == 0):
                             total['violations'].append({'sig': sig, 'detail': detail, 'case': {'history': hist}})
                     if key is None:
                         continue            # terminal / rejected edge: no new state
@@ -447,13 +447,20 @@ def run_check(prop: str, tier: str) -> int:
 
     # ---------------- violations: confirm in a fresh interpreter, match against known findings
     known = load_known(prop)
-    by_sig: dict[str, dict] = {}
+    by_sig: dict[str, list] = {}
     for v in total['violations']:
-        by_sig.setdefault(v['sig'], v)
+        by_sig.setdefault(v['sig'], []).append(v)
     new_violations = []
     known_hit = []
+    unconfirmed: list = []
+
+    def _confirms(v, sig):
+        r = _fresh_replay(prop, v['case'])
+        return (bool(r) and 'error' not in r and any(s == sig for s, _ in r.get('violations', []))), r
+
     for sig in sorted(by_sig):
-        v = by_sig[sig]
+        cands = by_sig[sig]
+        v = cands[0]
         if sig in known:
             known_hit.append(sig)
             write_replay(prop, v, known=True)
@@ -461,13 +468,31 @@ def run_check(prop: str, tier: str) -> int:
         if 'history' in v['case'] and not hasattr(mod, 'run_case'):
             confirmed = True
         else:
-            r = _fresh_replay(prop, v['case'])
-            confirmed = bool(r) and 'error' not in r and any(s == sig for s, _ in r.get('violations', []))
+            confirmed, r = _confirms(v, sig)
+            if not confirmed and len(cands) > 1:
+                # state that leaked between executions of one worker can make a case fail only there; another case of
+                # the same signature may be the real witness (it carries the whole history itself): try them all
+                from concurrent.futures import ThreadPoolExecutor
+                rest = cands[1:120]
+                with ThreadPoolExecutor(max_workers=8) as tp:
+                    for cand, (ok, _r) in zip(rest, tp.map(lambda c: _confirms(c, sig), rest)):
+                        if ok:
+                            v, confirmed = cand, True
+                            break
             if not confirmed:
-                print(f"NONDETERMINISM property={prop}: violation {sig} did not reproduce in a fresh interpreter: "
-                      f"{str(r)[:800]}", flush=True)
-                return 2
+                unconfirmed.append((sig, min(len(cands), 120), r))
+                continue
         new_violations.append(v)
+    if unconfirmed and not new_violations:
+        sig, n, r = unconfirmed[0]
+        print(f"NONDETERMINISM property={prop}: violation {sig} did not reproduce in a fresh interpreter "
+              f"({n} case(s) tried): {str(r)[:800]}", flush=True)
+        return 2
+    for sig, n, r in unconfirmed:
+        # seen only inside a worker that had run other cases before: state leaking between executions; the confirmed
+        # violations below carry their whole history and are the ones reported
+        print(f"NOTE property={prop}: {sig} was seen only after other cases had run in the same process "
+              f"({n} case(s) re-run alone, none failed)", flush=True)
 
     wall = time.time() - t0
     extra_cov = mod.coverage_extra(tier) if hasattr(mod, 'coverage_extra') else {}
